@@ -31,15 +31,21 @@ func Len[K, V any](m *OrderedMap[K, V]) int {
 
 // finds the given key using binary search and returns it's index and wether it exists
 func (m *OrderedMap[K, V]) binarySearch(key K) (int, bool) {
+	// find the first key that is not less than the given key
 	low, high := 0, len(m.data)/2
 	for low < high {
 		mid := (low + high) / 2
-		if m.eq(m.data[mid*2].(K), key) {
-			return mid * 2, true
-		} else if m.less(m.data[mid*2].(K), key) {
+		if m.less(m.data[mid*2].(K), key) {
 			low = mid + 1
 		} else {
 			high = mid
+		}
+	}
+	// less may order keys as equivalent that eq tells apart
+	// (e.g. different types with the same name), so check all of them
+	for i := low; i < len(m.data)/2 && !m.less(key, m.data[i*2].(K)); i++ {
+		if m.eq(m.data[i*2].(K), key) {
+			return i * 2, true
 		}
 	}
 	return low, false
